@@ -815,6 +815,8 @@ pub fn fit_c2s(c: &mut ConnPlan) {
         })
         .max()
         .unwrap_or(0) as u64;
+    // a TLS client first has to get its handshake (about 600 bytes) across
+    let largest = if c.kind == ConnKind::Tls { largest + 600 } else { largest };
     let lat = c.c2s.lat_max.max(1);
     let need = (largest * lat).div_ceil(10_000) as usize + 1;
     if c.c2s.cap < need {
